@@ -146,7 +146,10 @@ def monitor(ctx, tier):
                 pass
         for src in ["void f(int a){ switch(a){ int q; case 1: case 2: a++; { case 3: ; } default: break; L: case 4: ; a--; } }",
                     "void g(int a){ switch(a) case 1: a = 2; switch (a) {} switch (a) { a = 1; a = 2; } }"]:
-            c_parser.CParser().parse(src, "m.c")
+            try:
+                c_parser.CParser().parse(src, "m.c")
+            except Exception as e:
+                ctx.fail("valid switch program rejected: %s: %s" % (type(e).__name__, str(e)[:80]), dict(kind="body", src=src))
     for e in rec.events:
         if e["e"] == "switchfix":
             nsw += 1
